@@ -618,7 +618,7 @@ Section FinalTgt.
        exists hi, final_lib c w <= hi /\ from_num start (map eblk (fst res)) = seg_num start hi canon).
   Proof.
     pose proof (c07_run_shapes_proof c w ps merged_end merged forked) as Hsh. cbv zeta in Hsh.
-    destruct (tgt_files c w ps merged_end canon forked cu B start Hchain Hstart Hmode Hcur HBc HB) as (D1 & D2 & fend & ED & Erf & Hfend).
+    destruct (tgt_files c w ps merged_end canon forked cu B start Hchain Hstart Hmode Hcur HBc HB) as (D1 & D2 & fend & ED & Erf & Hfend & _).
     fold merged stopf D in ED, Erf. rewrite Erf in Hsh. cbn [fst snd] in Hsh. fold res in Hsh. rewrite Hstart in Hsh.
     assert (Hseen : forall X, seen c X = undup c None X) by (intros X; rewrite (seen_final c X Hfilter), ft_mem; reflexivity).
     assert (Hraw : forall X P, raw_out c (undup c None X) res P -> nshape (map eblk (filter irr_ev X)) P ->
